@@ -58,7 +58,8 @@ pub fn run_dgram(run: &mut Run, port: &Port, d: &[u8], id: u8, nt: bool) {
     if !alive { run.fail("dead:shared_udp::recv_loop", &case, "the shared UDP demux task no longer forwards a genuine Binding request of a registered session after this datagram"); }
 }
 
-/// Binding requests naming UNREGISTERED ufrags from `count` distinct source sockets: nothing may be retained for them
+/// Binding requests (no MESSAGE-INTEGRITY) from `count` distinct source sockets naming UNREGISTERED ufrags (`ufrag_len` > 0) or the
+/// REGISTERED ufrag of a live session (`ufrag_len` = 0): nothing may be retained per source beyond the common limit
 pub fn run_flood(run: &mut Run, count: u32, ufrag_len: usize) {
     let port = Port::new();
     let case = format!("sharedudpflood {count} {ufrag_len}");
@@ -71,7 +72,7 @@ pub fn run_flood(run: &mut Run, count: u32, ufrag_len: usize) {
     port.rt.block_on(async {
         for k in 0..count {
             let s = tokio::net::UdpSocket::bind("127.0.0.1:0").await.unwrap();
-            let u: String = format!("{k:08}").chars().cycle().take(ufrag_len.max(1)).collect();
+            let u: String = if ufrag_len == 0 { UFRAG.to_string() } else { format!("{k:08}").chars().cycle().take(ufrag_len).collect() };
             let d = binding(&u, 7);
             bytes_in += d.len() as u64;
             let _ = s.send_to(&d, port.addr).await;
@@ -82,8 +83,10 @@ pub fn run_flood(run: &mut Run, count: u32, ufrag_len: usize) {
     let retained = super::alloc_retained().max(0) as u64;
     run.count_n(&format!("sharedudpflood:retained_per_input_byte_x100:{ufrag_len}"), retained * 100 / bytes_in.max(1));
     if retained > 65_536 + bytes_in / 8 {
-        run.fail("retain:shared_udp::dispatch:unregistered-ufrag", &case, &format!("{retained} bytes retained after {count} Binding requests for unregistered ufrags from distinct sources ({bytes_in} bytes received)"));
+        run.fail(if ufrag_len == 0 { "retain:shared_udp::dispatch:registered-ufrag-per-source" } else { "retain:shared_udp::dispatch:unregistered-ufrag" }, &case, &format!("{retained} bytes retained after {count} Binding requests from distinct sources ({bytes_in} bytes received)"));
     }
+    // the flood for the registered ufrag sits in the session's (bounded) channel: empty it before probing liveness
+    port.rt.block_on(async { let mut buf = vec![0u8; 2048]; while let Ok(Ok(_)) = tokio::time::timeout(Duration::from_millis(20), port.wrapper.recv_from(&mut buf)).await {} });
     let alive = port.send_and_probe(&[0, 1], 9);
     if !alive { run.fail("dead:shared_udp::recv_loop", &case, "demux task dead after the flood"); }
     run.case("sharedudp", &format!("flood {count} {ufrag_len}"), "noncompared", true);
@@ -107,6 +110,7 @@ pub fn special(run: &mut Run, rng: &mut Rng, thorough: bool) {
     drop(port);
     run_flood(run, if thorough { 6000 } else { 1500 }, 8);
     run_flood(run, if thorough { 1000 } else { 300 }, 400);
+    run_flood(run, if thorough { 6000 } else { 1500 }, 0);
 }
 
 pub fn replay_special(run: &mut Run, stream: &str, a: &[&str]) -> bool {
